@@ -1,0 +1,49 @@
+//go:build verif
+
+// Machine-checked contracts for package avro/time (comment-only; read by /verif/govc).
+
+package time
+
+// Avro 1.8 logical types: date = int, days from 1970-01-01; timestamp-millis / timestamp-micros = long,
+// milli/microseconds from 1970-01-01T00:00:00Z. A plain long is this library's documented nanosecond convention.
+
+//@ spec wfRB(r ptr) bool = r != nil && 0 <= r.i && r.i <= len(r.buf)
+// v units of mult nanoseconds, with every product by a constant (exact machine multiplication)
+//@ spec scaled(v int64, mult int64) int64 = mult == 1 ? v : mult == 1000 ? v * 1000 : v * 1000000
+
+//@ func buildTimeCodec
+//@   ensures [C19,C13] err == nil && schema.Type == "long" ==> typeis(res, "LongCodec") && unbox(res, "LongCodec").mult == ((schema.Object != nil && schema.Object.LogicalType == "timestamp-micros") ? 1000 : (schema.Object != nil && schema.Object.LogicalType == "timestamp-millis") ? 1000000 : 1)
+//@   ensures [C19,C13] err == nil && schema.Type == "int" ==> typeis(res, "DateCodec") && schema.Object != nil && schema.Object.LogicalType == "date"
+//@   ensures [C19,C13] schema.Type != "string" && schema.Type != "long" && !(schema.Type == "int" && schema.Object != nil && schema.Object.LogicalType == "date") ==> err != nil
+//@   pure
+
+//@ func (DateCodec).Read
+//@   let i0 := r.i, n := len(r.buf), e := vend(r.buf, r.i), v := vval(r.buf, r.i)
+//@   requires wfRB(r) && p != nil && rawalloc(p, 24)
+//@   ensures [C19,C13] err == nil ==> uvOK(r.buf, i0, e) && r.i == e && fits(v, 4)
+//@   ensures [C19,C13] err == nil ==> tsec(memload(p, "time.Time")) == daysec(v) && tnsec(memload(p, "time.Time")) == 0
+//@   modifies r.i, M[p, 24]
+
+//@ func (DateCodec).Write
+//@   let t := memload(p, "time.Time")
+//@   requires w != nil && p != nil && rawalloc(p, 24) && -1 << 40 < tsec(t) && tsec(t) < 1 << 40
+//@   ensures [C19,C13] tlen() == 1 && tkind(0) == evV && ta(0) == uint64(fdiv(tsec(t), 86400))
+//@   modifies w.buf, BH[w.buf]
+
+//@ func (LongCodec).Read
+//@   let i0 := r.i, n := len(r.buf), e := vend(r.buf, r.i), v := vval(r.buf, r.i)
+//@   requires wfRB(r) && p != nil && rawalloc(p, 24) && (c.mult == 1 || c.mult == 1000 || c.mult == 1000000)
+//@   ensures [C19,C13] err == nil ==> uvOK(r.buf, i0, e) && r.i == e
+//@   ensures [C19,C13] err == nil && -9000000000000 < v && v < 9000000000000 ==> tsec(memload(p, "time.Time")) == nsdiv(scaled(v, c.mult)) && tnsec(memload(p, "time.Time")) == nsmod(scaled(v, c.mult))
+//@   uses umul_exact(v, 1)
+//@   uses umul_exact(v, 1000)
+//@   uses umul_exact(v, 1000000)
+//@   modifies r.i, M[p, 24]
+
+// the stored integer is the instant at the type's resolution, floor(ns / mult), written out per resolution
+//@ spec atRes(sec int64, nsec int64, mult int64) int64 = mult == 1 ? sec * 1000000000 + nsec : mult == 1000 ? sec * 1000000 + nsec / 1000 : sec * 1000 + nsec / 1000000
+//@ func (LongCodec).Write
+//@   let t := memload(p, "time.Time")
+//@   requires w != nil && p != nil && rawalloc(p, 24) && (c.mult == 1 || c.mult == 1000 || c.mult == 1000000) && -9000000000 < tsec(t) && tsec(t) < 9000000000 && 0 <= tnsec(t) && tnsec(t) < 1000000000
+//@   ensures [C19,C13] tlen() == 1 && tkind(0) == evV && ta(0) == uint64(atRes(tsec(t), tnsec(t), c.mult))
+//@   modifies w.buf, BH[w.buf]
